@@ -94,7 +94,7 @@ func execMultiplicativeExprMod(context *exprContext, expr *grammar.Grammar) erro
 		return nil
 	}
 
-	context.result = Number(int(left) % int(right))
+	context.result = Number(math.Mod(left, right))
 	return nil
 }
 
